@@ -963,7 +963,7 @@ Proof.
   intros [] m1 X1 (_ & Ho1).
   assert (R1 : ready [] m1) by (eapply ready_ext; eassumption).
   apply spawn_returns; [hf|].
-  eapply returns_weaken; [apply flush_returns|auto]. destruct R1 as (C1 & H1 & I1). repeat split; assumption.
+  eapply returns_weaken; [apply flush_returns|auto]. destruct R1 as (C1 & H1 & I1). (split; [|split]; first [assumption|reflexivity]).
 Qed.
 
 (* RegisterTree for a tree that came from a peer: with F72 it is only reached where no
@@ -993,7 +993,7 @@ Proof.
                filter (fun pm => tk_tree (p_to pm) =? t_id t) (parked (os m1)) = [pm] ->
                lookup (t_id t) (store (os m1)) = Some (Have t) ->
                will_deliver (os m1) t pm f -> In (EDeliver (p_to pm) (tk_node f)) (evs m'));
-      [hf|eapply returns_weaken; [apply flush_returns; repeat split; assumption|];
+      [hf|eapply returns_weaken; [apply flush_returns; (split; [|split]; first [assumption|reflexivity])|];
           intros ? ? _ H; cbn [os] in H; exact H]. }
   intros a m' Hx Hq pm f Hf W; split;
     [ intros Hnx; apply (ext_keeps _ _ _ Hx); assumption
@@ -1156,14 +1156,14 @@ Proof.
     intros ro E. destruct (Hr ro E) as [Ha|(id & t & Hl & Ht)]; [discriminate|].
     rewrite Ho2 in Hl. cbn [os] in Hl. eauto. }
   intros oro m2 X2 (Ho2 & Hro).
-  assert (R2 : ready [] m2) by (eapply ready_ext; [|eassumption]; repeat split; assumption).
+  assert (R2 : ready [] m2) by (eapply ready_ext; [|eassumption]; (split; [|split]; first [assumption|reflexivity])).
   destruct R2 as (C2 & H2 & I2).
   destruct oro as [ro|].
   - eapply returns_weaken; [apply handle_send_tree_returns; [exact C2|rewrite H2; reflexivity|exact I2|]|auto].
     intros tm' ro' E1 E2. inversion E1; subst tm'. inversion E2; subst ro'.
     destruct (Hro ro eq_refl) as (id & t & Hl & <-). rewrite Ho1 in Hl. eapply Hb, Hl.
   - eapply bind_returns; [apply send_returns|]. intros ok m3 X3 _.
-    assert (R3 : ready [] m3) by (eapply ready_ext; [|eassumption]; repeat split; assumption).
+    assert (R3 : ready [] m3) by (eapply ready_ext; [|eassumption]; (split; [|split]; first [assumption|reflexivity])).
     destruct R3 as (C3 & H3 & I3).
     apply locked_returns; [exact C3|rewrite H3; reflexivity|hf|].
     eapply bind_returns; [apply access_returns; reflexivity|]. intros [] m4 X4 Ho4.
@@ -1205,7 +1205,7 @@ Proof.
   assert (Ea : acquire LPTree m = Ret tt m0).
   { unfold acquire, m0. unfold clean in C. rewrite C, Hh. reflexivity. }
   assert (C0 : clean m0) by exact C.
-  assert (P0 : clean m0 /\ held m0 = [LPTree] /\ insts_have (os m0)) by (repeat split; assumption).
+  assert (P0 : clean m0 /\ held m0 = [LPTree] /\ insts_have (os m0)) by ((split; [|split]; first [assumption|reflexivity])).
   (* the body up to the release *)
   assert (Body : returns X (access TPTM ;; s <- get ;;
                             match filter (fun tm => tm_roster tm =? ro_id ro) (ptm s) with
@@ -1228,7 +1228,7 @@ Proof.
         { rewrite <- Ef in Hin. apply filter_In in Hin as [Hin Heq]. apply Nat.eqb_eq in Heq. apply Hb; [|exact Heq].
           rewrite Ho1 in Hin. exact Hin. }
         eapply returns_weaken; [apply pending_one_returns; [exact C4|rewrite H4; reflexivity|exact I4|exact Bm]|].
-        intros a m' Hx _. eapply (ready_ext X [LPTree]); [|exact Hx]. repeat split; assumption. }
+        intros a m' Hx _. eapply (ready_ext X [LPTree]); [|exact Hx]. (split; [|split]; first [assumption|reflexivity]). }
     auto. }
   destruct Body as ([] & m1 & E1 & X1 & _).
   exists tt, (mkM (os m1) [] (evs m1)). split; [|split; [|exact I]].
@@ -1304,8 +1304,12 @@ Qed.
 End Fixed.
 
 (* which tree ids an operation may give a new content *)
-Definition touches (o : op) : nat -> Prop :=
-  match o with LocalTree t => fun id => id = t_id t | _ => noX end.
+Definition touches (o : op) : perm :=
+  match o with
+  | LocalTree t => mkPerm (fun id => id = t_id t) (fun _ => False)
+  | LocalDone k => mkPerm (fun _ => False) (fun k' => k' = k)
+  | _ => noX
+  end.
 
 (* variants of the code that have the repairs F26 and F72 *)
 Definition base_fixed (fx : fixes) : Prop := f26 fx = true /\ f72 fx = true.
@@ -1328,7 +1332,7 @@ Proof.
   - apply process_returns; assumption.
   - apply register_tree_returns; [exact R|reflexivity].
   - apply locked_returns; [exact C|rewrite Hh; reflexivity|intros a m0 H _; exact I|].
-    eapply returns_weaken; [apply node_delete_returns|auto]; [exact C|cbn [held]; rewrite Hh; reflexivity|reflexivity].
+    eapply returns_weaken; [apply node_delete_returns|auto]; [exact C|cbn [held]; rewrite Hh; reflexivity|reflexivity|left; reflexivity].
 Qed.
 
 (* ---- Part 3: steps and histories ------------------------------------------------------------- *)
@@ -1336,7 +1340,7 @@ Qed.
 Definition Inv (s : ostate) : Prop := leaked s = [] /\ insts_have s.
 
 Lemma init_inv : Inv init.
-Proof. split; [reflexivity|]. intros k []. Qed.
+Proof. split; [reflexivity|]. split; [intros k []|intros id t H; discriminate H]. Qed.
 
 Lemma set_leaked_nil : forall s, leaked s = [] -> set_leaked s (leaked s ++ []) = s.
 Proof. intros [a b c d e f g h] H. cbn in *. subst h. reflexivity. Qed.
@@ -1368,16 +1372,23 @@ Theorem step_safe_gen : forall fx s o,
   r_out (step fx s o) = Ok /\
   Inv (r_state (step fx s o)) /\
   disciplined (r_events (step fx s o)) = true /\
-  (forall id t, ~ touches o id -> lookup id (store s) = Some (Have t) ->
-                lookup id (store (r_state (step fx s o))) = Some (Have t)).
+  (forall id t, ~ p_tree (touches o) id -> lookup id (store s) = Some (Have t) ->
+                lookup id (store (r_state (step fx s o))) = Some (Have t)) /\
+  (forall k, proto_known (tk_proto k) = true -> ~ p_fin (touches o) k ->
+             mem_tok k (finished s) = false -> mem_tok k (finished (r_state (step fx s o))) = false).
 Proof.
   intros fx s o Hfx I B. pose proof I as (Hl & Hi).
   destruct (step_of_returns fx s o (fun _ _ => True) I) as (m' & E & Hx & _).
-  { apply run_op_returns; [exact Hfx|repeat split; assumption|exact B]. }
+  { apply run_op_returns; [exact Hfx|(split; [|split]; first [assumption|reflexivity])|exact B]. }
   rewrite E. cbn [r_out r_state r_events]. split; [reflexivity|]. split; [|split].
   - split; [rewrite (ext_leaked _ _ _ Hx); exact Hl|apply (ext_insts _ _ _ Hx), Hi].
   - unfold disciplined. rewrite forallb_rev. apply (ext_disc _ _ _ Hx). reflexivity.
-  - intros id t Hn Ht. apply (ext_keeps _ _ _ Hx); assumption.
+  - split.
+    + intros id t Hn Ht. apply (ext_keeps _ _ _ Hx); assumption.
+    + intros k Hp Hn Hf. destruct (mem_tok k (finished (os m'))) eqn:Ef; [|reflexivity].
+      apply mem_tok_In in Ef. destruct (ext_fin _ _ _ Hx k Hp Ef) as [H|H].
+      * cbn [os] in H. apply mem_tok_In in H. congruence.
+      * contradiction.
 Qed.
 
 Lemma all_fixed_base : base_fixed all_fixed.
@@ -1388,9 +1399,12 @@ Theorem step_safe : forall s o,
   r_out (step all_fixed s o) = Ok /\
   Inv (r_state (step all_fixed s o)) /\
   disciplined (r_events (step all_fixed s o)) = true /\
-  (forall id t, ~ touches o id -> lookup id (store s) = Some (Have t) ->
+  (forall id t, ~ p_tree (touches o) id -> lookup id (store s) = Some (Have t) ->
                 lookup id (store (r_state (step all_fixed s o))) = Some (Have t)).
-Proof. intros s o I. apply step_safe_gen; [apply all_fixed_base|exact I|apply benign_all_fixed]. Qed.
+Proof.
+  intros s o I. destruct (step_safe_gen all_fixed s o all_fixed_base I (benign_all_fixed s o)) as (A & B & C & D & _).
+  auto.
+Qed.
 
 Lemma run_cons : forall fx s o ops, run fx s (o :: ops) = run fx (r_state (step fx s o)) ops.
 Proof. reflexivity. Qed.
@@ -1414,7 +1428,7 @@ Proof.
   intros fx ops. induction ops as [|o r IH]; intros s Hfx I B; cbn [trace].
   - split; [constructor|exact I].
   - destruct B as (Bo & Br).
-    destruct (step_safe_gen fx s o Hfx I Bo) as (Ho & I' & D & _).
+    destruct (step_safe_gen fx s o Hfx I Bo) as (Ho & I' & D & _ & _).
     destruct (IH _ Hfx I' Br) as (F & I'').
     split; [|rewrite run_cons; exact I''].
     constructor; [|exact F]. split; [exact Ho|]. split; [apply I'|exact D].
@@ -1458,12 +1472,12 @@ Qed.
 (* a tree the server has is never changed by what peers send *)
 Theorem known_tree_stays : forall ops s id t,
   Inv s ->
-  (forall o, In o ops -> ~ touches o id) ->
+  (forall o, In o ops -> ~ p_tree (touches o) id) ->
   lookup id (store s) = Some (Have t) ->
   lookup id (store (run all_fixed s ops)) = Some (Have t).
 Proof.
   induction ops as [|o r IH]; intros s id t I Hn Ht; [exact Ht|].
-  rewrite run_cons. destruct (step_safe s o I) as (_ & I' & _ & K).
+  rewrite run_cons. destruct (step_safe s o I) as (_ & I' & _ & K & _).
   apply IH; [exact I'| |].
   - intros o' Ho'. apply Hn. right. exact Ho'.
   - apply K; [apply Hn; left; reflexivity|exact Ht].
@@ -1510,16 +1524,36 @@ Qed.
 
 Theorem known_tree_stays_gen : forall fx ops s id t,
   base_fixed fx -> crash_fixed fx -> Inv s ->
-  (forall o, In o ops -> ~ touches o id) ->
+  (forall o, In o ops -> ~ p_tree (touches o) id) ->
   lookup id (store s) = Some (Have t) ->
   lookup id (store (run fx s ops)) = Some (Have t).
 Proof.
   intros fx ops. induction ops as [|o r IH]; intros s id t HB HC I Hn Ht; [exact Ht|].
   rewrite run_cons.
-  destruct (step_safe_gen fx s o HB I (benign_crash_fixed fx s o HC)) as (_ & I' & _ & K).
+  destruct (step_safe_gen fx s o HB I (benign_crash_fixed fx s o HC)) as (_ & I' & _ & K & _).
   apply IH; [exact HB|exact HC|exact I'| |].
   - intros o' Ho'. apply Hn. right. exact Ho'.
   - apply K; [apply Hn; left; reflexivity|exact Ht].
+Qed.
+
+(* peers cannot finish a run of the registered protocol: only the instance's own Done does *)
+Definition is_done_of (k : token) (o : op) : Prop := o = LocalDone k.
+
+Theorem legit_token_stays_unfinished : forall fx ops s k,
+  base_fixed fx -> crash_fixed fx -> Inv s ->
+  proto_known (tk_proto k) = true ->
+  (forall o, In o ops -> o <> LocalDone k) ->
+  mem_tok k (finished s) = false ->
+  mem_tok k (finished (run fx s ops)) = false.
+Proof.
+  intros fx ops. induction ops as [|o r IH]; intros s k HB HC I Hp Hn Hf; [exact Hf|].
+  rewrite run_cons.
+  destruct (step_safe_gen fx s o HB I (benign_crash_fixed fx s o HC)) as (_ & I' & _ & _ & F).
+  apply IH; try assumption.
+  - intros o' Ho'. apply Hn. right. exact Ho'.
+  - apply F; [exact Hp| |exact Hf].
+    intros Hfin. apply (Hn o (or_introl eq_refl)).
+    destruct o as [p c nf m|t|k']; cbn [touches p_fin noX] in Hfin; try contradiction. subst k'. reflexivity.
 Qed.
 
 (* ---- Part 4: the next legitimate operation is served ------------------------------------------ *)
@@ -1574,7 +1608,7 @@ Theorem serves_protocol_message : forall s p nf from k t f,
 Proof using HB HC.
   intros s p nf from k t f I Ht W. pose proof I as (Hl & Hi).
   edestruct (step_of_returns fx s (Recv p false nf (MProto from (Some k) BPing))) as (m' & E & Hx & Hq); [exact I| |].
-  { cbn [run_op process touches]. apply transmit_returns; [repeat split; assumption|discriminate]. }
+  { cbn [run_op process touches]. apply transmit_returns; [(split; [|split]; first [assumption|reflexivity])|discriminate]. }
   cbn zeta. rewrite E. cbn [r_out r_events]. split; [reflexivity|].
   apply In_rev_iff. destruct (Hq k eq_refl) as (Hd & _). apply (Hd t f); assumption.
 Qed.
@@ -1595,7 +1629,7 @@ Proof using HB HC.
   intros s p nf from k b H71 I Hb Hr Hs. pose proof I as (Hl & Hi).
   edestruct (step_of_returns fx s (Recv p false nf (MProto from (Some k) b))) as (m' & E & Hx & Hq); [exact I| |].
   { cbn [run_op process touches].
-    destruct b; [| |contradiction]; (apply transmit_returns; [repeat split; assumption|discriminate]). }
+    destruct b; [| |contradiction]; (apply transmit_returns; [(split; [|split]; first [assumption|reflexivity])|discriminate]). }
   cbn zeta. rewrite E. cbn [r_out r_events r_state]. split; [reflexivity|].
   assert (Hq' : forall k0, Some k = Some k0 -> _) by (destruct b; [exact Hq|exact Hq|contradiction]).
   destruct (Hq' k eq_refl) as (_ & Hp).
